@@ -60,6 +60,7 @@ def handle (toks : List String) : Option String :=
   | "gcm.openglue" :: _ => Driver.GCMGlue.handle toks
   | "gcm.sealglue.spec" :: _ => Driver.GCMGlue.handle toks
   | "gcm.openglue.spec" :: _ => Driver.GCMGlue.handle toks
+  | "sm3.sumglue" :: _ => Driver.GCMGlue.handle toks
   | _ => none
 
 end Driver.GCM
